@@ -19,7 +19,7 @@ from harness import common, gen
 from harness.props.c02 import dist_close, lean_dist, lean_ops, records_key
 from harness.scripted import enumerate_branches
 
-MODULES = ['CirqVerif.Props.C09']
+MODULES = ['CirqVerif.Props.C09', 'CirqVerif.Props.C09b', 'NonVacuity.ComplexModel']
 
 
 def rand_channel(cirq, rng):
